@@ -159,6 +159,7 @@ func c05(r *core.Run) {
 	r.Rule("D2", "method lookup: call and auth alike index the method map by the request's method, fall back to \"*\" on the nil edge, reply methodNotFound when still nil and call exactly that value; call.new prefers the New handler when set", 4)
 	r.Rule("D3", "method split agreement: the request types for which the message handler strips a trailing method token = the types for which subscribe appends a method wildcard", 1)
 	r.Rule("E1", "error mapping: in every recover closure the *Error arm passes the asserted value itself to the error reply, all other arms pass ToError/InternalError results; InternalError builds an Error with the internal-error code constant; ToError returns its argument when it already is an *Error", 5)
+	r.Rule("E3", "verbatim error replies: in every error-reply funnel (a function taking an *Error and handing a payload to the reply path) each payload is the json.Marshal output of a value holding that very *Error, or - only on the marshal-failure edge - a static literal; a static literal chosen by the error's code would replace a custom message or data with the generic text", 2)
 	r.Rule("E2", "static outcomes: no-resource and get-without-handler reply with the notFound literal, unknown call/auth method with the methodNotFound literal, a handler that returned without replying reaches the fallback that replies with an internalError literal; literals carry the matching Code* constant", 6)
 
 	root := p.FuncsOfPkg("")
@@ -683,6 +684,7 @@ func c05(r *core.Run) {
 		r.Unres("E1", "InternalError", "not found")
 	}
 	toErrorRule(r, "E1")
+	c05Verbatim(r, root)
 
 	// ---- E2 --------------------------------------------------------------
 	globals := byteGlobals(p, "")
@@ -761,9 +763,11 @@ func c05(r *core.Run) {
 			}
 			return ""
 		}
+		mReq.exemptEdge = dispatchExemptEdge("Request")
 		res := mReq.flow(d, core.StateSet(0).Add(stNo))
 		exempt := mReq.exemptRet
 		mReq.exemptRet = nil
+		mReq.exemptEdge = nil
 		allYes, where := true, ""
 		for _, ret := range core.Returns(d) {
 			if d.Recover != nil && ret.Block() == d.Recover {
@@ -842,4 +846,149 @@ func toErrorRule(r *core.Run, rule string) {
 		}
 	}
 	r.Check(hasAssert && hasInternal && other == "", rule, "ToError", "identity-on-*Error-else-InternalError", p.Pos(fn.Pos()), "returns the argument itself when its dynamic type is *Error (plain type assertion), InternalError(err) otherwise", "ToError does not map by a plain type assertion on its argument: "+other)
+}
+
+// c05Verbatim is rule E3.
+func c05Verbatim(r *core.Run, root []*ssa.Function) {
+	p := r.P
+	mayPub := mayExec(root, func(in ssa.Instruction) bool {
+		c, ok := in.(ssa.CallInstruction)
+		return ok && c.Common().IsInvoke() && c.Common().Method.Name() == "Publish"
+	})
+	isErrPtr := func(t types.Type) bool { return isPtrTo(t, "Error") }
+	for _, fn := range root {
+		if fn.Parent() != nil || len(fn.Blocks) == 0 {
+			continue
+		}
+		var eprm *ssa.Parameter
+		for i, prm := range fn.Params {
+			if fn.Signature.Recv() != nil && i == 0 {
+				continue
+			}
+			if isErrPtr(prm.Type()) {
+				eprm = prm
+			}
+		}
+		if eprm == nil {
+			continue
+		}
+		// the marshal call(s) encoding a value that holds the parameter
+		holds := func(arg ssa.Value) bool {
+			v := core.Strip(arg)
+			if v == ssa.Value(eprm) {
+				return true
+			}
+			var cell ssa.Value
+			if u, ok := v.(*ssa.UnOp); ok && u.Op == token.MUL {
+				cell = u.X
+			} else {
+				cell = v
+			}
+			if eprm.Referrers() == nil {
+				return false
+			}
+			for _, rf := range *eprm.Referrers() {
+				if st, ok := rf.(*ssa.Store); ok && st.Val == ssa.Value(eprm) {
+					if fa, ok := st.Addr.(*ssa.FieldAddr); ok && fa.X == cell {
+						return true
+					}
+				}
+			}
+			return false
+		}
+		marshalOf := func(v ssa.Value) *ssa.Call {
+			ex, ok := core.Strip(v).(*ssa.Extract)
+			if !ok || ex.Index != 0 {
+				return nil
+			}
+			c, ok := ex.Tuple.(*ssa.Call)
+			if !ok || core.CalleeName(c) != "encoding/json.Marshal" {
+				return nil
+			}
+			return c
+		}
+		var marshals []*ssa.Call
+		for _, c := range core.Calls(fn) {
+			if call, ok := c.(*ssa.Call); ok && core.CalleeName(call) == "encoding/json.Marshal" && holds(call.Call.Args[0]) {
+				marshals = append(marshals, call)
+			}
+		}
+		onMarshalFailure := func(e edgeCond) bool {
+			ci := core.Cond(e.If.Cond)
+			if ci.Kind != "nilcmp" {
+				return false
+			}
+			ex, ok := core.Strip(ci.X).(*ssa.Extract)
+			if !ok || ex.Index != 1 {
+				return false
+			}
+			isM := false
+			for _, m := range marshals {
+				if ex.Tuple == ssa.Value(m) {
+					isM = true
+				}
+			}
+			truth := e.Succ == 0
+			if ci.Negate {
+				truth = !truth
+			}
+			return isM && ((ci.Op == token.NEQ && truth) || (ci.Op == token.EQL && !truth))
+		}
+		type src struct {
+			v    ssa.Value
+			pred *ssa.BasicBlock // block the value comes in from (phi edge), nil = the use itself
+			to   *ssa.BasicBlock
+		}
+		var sources func(v ssa.Value, pred, to *ssa.BasicBlock, d int) []src
+		sources = func(v ssa.Value, pred, to *ssa.BasicBlock, d int) []src {
+			if phi, ok := v.(*ssa.Phi); ok && d < 5 {
+				var out []src
+				for i, e := range phi.Edges {
+					out = append(out, sources(e, phi.Block().Preds[i], phi.Block(), d+1)...)
+				}
+				return out
+			}
+			return []src{{v, pred, to}}
+		}
+		for _, c := range core.Calls(fn) {
+			cal := c.Common().StaticCallee()
+			if cal == nil || !mayPub[cal] || core.IsGo(c) {
+				continue
+			}
+			for _, a := range c.Common().Args {
+				if !isByteSlice(a.Type()) {
+					continue
+				}
+				for k, s := range sources(a, nil, nil, 0) {
+					key := fmt.Sprintf("payload#%d:%s", k, valDesc(s.v))
+					if m := marshalOf(s.v); m != nil {
+						r.Check(holds(m.Call.Args[0]), "E3", core.FuncName(fn), key, p.InstrPos(c), "the payload encodes the *Error handed in", "the error payload is marshalled from a value that does not hold the *Error handed in")
+						continue
+					}
+					if g, ok := loadedGlobal(s.v); ok {
+						under := false
+						var at ssa.Instruction = c
+						if s.pred != nil {
+							at = s.pred.Instrs[len(s.pred.Instrs)-1]
+							if iff, ok := at.(*ssa.If); ok {
+								for i, sc := range s.pred.Succs {
+									if sc == s.to && onMarshalFailure(edgeCond{iff, i}) {
+										under = true
+									}
+								}
+							}
+						}
+						for _, e := range dominatingEdges(at) {
+							if onMarshalFailure(e) {
+								under = true
+							}
+						}
+						r.Check(under, "E3", core.FuncName(fn), key, p.InstrPos(c), "static literal "+g+" only on the marshal-failure edge", "the static literal "+g+" is sent in place of the *Error handed in on a path that is not the marshal-failure edge: a custom message or data carried by the error is replaced by the generic text")
+						continue
+					}
+					r.Bad("E3", core.FuncName(fn), key, p.InstrPos(c), "error payload of unknown origin: "+valDesc(s.v))
+				}
+			}
+		}
+	}
 }
